@@ -36,6 +36,7 @@ def REQUIRED(tier):
         req[("schema-ok:" if not s.endswith("-neg") else "schema-refused-ok:") + s] = 10
     req["schema:reached-in-place"] = 300
     req["schema:reached-by-folding"] = 100
+    req["schema:all-rules-listed-before-the-verdict"] = 300
     req["schema:target-has-a-twin-with-the-same-ids"] = 100
     req["schema:asked-under-numpy-invalid-raise"] = 300
     return req
@@ -209,6 +210,16 @@ def run_instance(rec, inst, rng, ctx_sample):
                 root = via
             else:
                 root = D.parse(full)
+        if rng.random() < 0.35:
+            # "list the valid moves of every rule" on this very tree first (pure questions)
+            if not _LISTERS:
+                _LISTERS.extend(r for _, r in MR.rule_instances())
+            for lister in _LISTERS:
+                try:
+                    lister.find_nodes(root)
+                except Exception:
+                    pass
+            rec.arm("schema:all-rules-listed-before-the-verdict")
         outer = locate(root, want)
         if outer is None:
             rec.skip("schema subtree did not survive parsing in this context")
@@ -601,7 +612,10 @@ def instances(rng):
     text = f"{mk(L)} = {twin.format(o=R, t=t)}" if side == "L" else f"{twin.format(o=L, t=t)} = {mk(R)}"
     yield Inst("BM-add", "BM", text, "bm_add", {"t": t, "side": side, "pos": pos, "twin": True}, contexts=EQ_CONTEXTS)
     c_ = rng.choice(["2", "3", "12", "0.5", "-4", "7", "2.5"])
-    body = rng.choice([f"{c_}{rng.choice(VARS)}", f"{c_}{rng.choice(VARS)}^2", f"{c_} * {rng.choice(VARS)}"])
+    c2_ = rng.choice(["3", "5", "0.5", "7"])
+    body = rng.choice([f"{c_}{rng.choice(VARS)}", f"{c_}{rng.choice(VARS)}^2", f"{c_} * {rng.choice(VARS)}",
+                       # a second constant further down the same product (the coefficient to divide by is the outer one)
+                       f"{c_} * {c2_}{rng.choice(VARS)}", f"{c_} * ({c2_} * {rng.choice(VARS)})", f"{c_} * {c2_}{rng.choice(VARS)}^2"])
     rside = rng.choice([rng.choice(POSC), term(rng), f"{term(rng)} + {rng.choice(POSC)}"])
     flip = rng.random() < 0.3
     text = f"{rside} = {body}" if flip else f"{body} = {rside}"
